@@ -82,6 +82,13 @@ def configs(quick):
         one(f"inversion-duplicate[{b}]", {"x0": "inversion-duplicate"}, b)
         for side in ("lower", "upper", "both"):
             one(f"inversion-fixed-{side}[{b}]", {"x0": {"reparameterisation": "rescaletobounds", "boundary_inversion": True, "inversion_type": "split", "detect_edges": True, "detect_edges_kwargs": {"allowed_bounds": [side] if side != "both" else ["lower", "upper"]}}}, b)
+        # one multi-parameter block with per-parameter heterogeneity: inversion on a subset only,
+        # non-default target interval for the others, list / dict spellings
+        for itype in ("split", "duplicate"):
+            one(f"block-partial-inversion-{itype}-rb01[{b}]", {"rescaletobounds": {"parameters": ["x0", "x1"], "boundary_inversion": ["x0"], "inversion_type": itype, "detect_edges": True, "rescale_bounds": [0.0, 1.0]}}, b)
+            one(f"block-partial-inversion-{itype}-x1-rb-2,5[{b}]", {"rescaletobounds": {"parameters": ["x0", "x1"], "boundary_inversion": {"x1": itype}, "detect_edges": True, "rescale_bounds": {"x0": [-2.0, 5.0], "x1": [-1.0, 1.0]}}}, b)
+        one(f"block-partial-inversion-default-rb[{b}]", {"rescaletobounds": {"parameters": ["x0", "x1"], "boundary_inversion": ["x1"], "detect_edges": True}}, b)
+        one(f"block-mixed-rescale-bounds[{b}]", {"rescaletobounds": {"parameters": ["x0", "x1"], "rescale_bounds": {"x0": [0.0, 1.0], "x1": [-3.0, -1.0]}, "update_bounds": False}}, b)
         one(f"logit[{b}]", {"x0": "logit"}, b)
         one(f"log-rescale[{b}]", {"x0": "log-rescale"}, b)
         one(f"scale[{b}]", {"x0": {"reparameterisation": "scale", "scale": 2.5}}, b)
